@@ -29,6 +29,11 @@ def op_tree(stmts, recv):
   out = []
   for st in stmts:
     if isinstance(st, (ast.For, ast.While)):
+      # ops in the loop header run once, before the first iteration (for x in range(reader.ReadInt32()))
+      hdr = st.iter if isinstance(st, ast.For) else None
+      if hdr is not None:
+        for c in sorted([n for n in ast.walk(hdr) if isinstance(n, ast.Call) and isinstance(n.func, ast.Attribute) and U(n.func.value) == recv], key=lambda c: (c.lineno, c.col_offset)):
+          out.append(c.func.attr)
       sub = op_tree(st.body, recv)
       if sub:
         out.append(sub)
@@ -459,7 +464,11 @@ def r5(ctx):
     for lp in [n for n in ast.walk(fn.node) if isinstance(n, ast.For)]:
       it = lp.iter
       ok = isinstance(it, ast.Call) and isinstance(it.func, ast.Name) and it.func.id == 'range' and len(it.args) == 1 and isinstance(it.args[0], ast.Name)
-      if ok:
+      direct = isinstance(it, ast.Call) and isinstance(it.func, ast.Name) and it.func.id == 'range' and len(it.args) == 1 and isinstance(it.args[0], ast.Call) \
+        and call_attr(it.args[0]) == 'ReadInt32' and not it.args[0].args
+      if direct:
+        ok = True
+      elif ok:
         cnt = it.args[0].id
         src = [st for st in ast.walk(fn.node) if isinstance(st, ast.Assign) and isinstance(st.targets[0], ast.Name) and st.targets[0].id == cnt]
         ok = len(src) == 1 and call_attr(src[0].value) == 'ReadInt32' and src[0].lineno < lp.lineno
